@@ -106,6 +106,10 @@ func allVectorsRetrievable(seg segment.Segment, exp *ref.Content) string {
 	}
 	for field, vf := range exp.Vecs {
 		if len(vf.Vecs) >= 1000 {
+			// clustered class: unfiltered answers are approximate; ask for every document alone
+			if m := everyVectorPresent(seg, exp, field); m != "" {
+				return fmt.Sprintf("field %q: %s", field, m)
+			}
 			continue
 		}
 		q := vecQuery{Field: field, Q: make([]float32, vf.Dims), K: int64(len(vf.Vecs))}
